@@ -322,6 +322,25 @@ def process_template(unit, tmpl_path, repo_root):
         lines = f.read().split('\n')
     asm = Assembly(unit, repo_root)
     lines = _apply_conditionals(lines, repo_root, asm)
+    # //@cutall kind=const path=<file> re=<regex on the item name>: one type cut per matching top-level item, in file order
+    exp = []
+    for ln in lines:
+        if ln.strip().startswith('//@cutall '):
+            toks_ = _parse_directive(ln)
+            _, kv_ = _kv(toks_[1:])
+            src_ = Source.get(repo_root, kv_['path'])
+            names_ = []
+            for mm_ in re.finditer(r'(?m)^(?:pub(?:\([a-z]+\))?\s+)?' + kv_['kind'] + r'\s+([A-Za-z_][A-Za-z0-9_]*)\b', src_.text):
+                if src_.mask[mm_.start(1)] == CODE and re.search(kv_['re'], mm_.group(1)) and mm_.group(1) not in names_:
+                    names_.append(mm_.group(1))
+            if not names_:
+                raise CutError('cutall: no %s item matches %r in %s' % (kv_['kind'], kv_['re'], kv_['path']))
+            for nm_ in names_:
+                exp.append('//@cut type kind=%s path=%s name=%s' % (kv_['kind'], kv_['path'], nm_))
+                exp.append('//@end')
+        else:
+            exp.append(ln)
+    lines = exp
     i = 0
     n = len(lines)
     while i < n:
